@@ -468,7 +468,32 @@ macro_rules! json_entry {
   };
 }
 
-json_entry!(ep_jwk, Jwk, |k: &Jwk| sweep_jwk(k));
+json_entry!(ep_jwk, Jwk, |k: &Jwk| {
+  sweep_jwk(k);
+  // conversion into the JSON-proof-token library's key type and back
+  let ext: Result<jsonprooftoken::jwk::key::Jwk, _> = k.try_into();
+  if let Ok(ext) = ext {
+    if let Ok(back) = Jwk::try_from(ext) {
+      sweep_jwk(&back);
+    }
+  }
+});
+
+/// A JWK as the JSON-proof-token library reads it (issuer keys of JPTs arrive in this type), converted into the
+/// library's own `Jwk`.
+fn ep_jwk_from_jpt_jwk(data: &[u8]) -> Ep {
+  let Some((s, is_json)) = json_text(data) else { return Ep::Rejected };
+  match serde_json::from_str::<jsonprooftoken::jwk::key::Jwk>(s) {
+    Ok(ext) => match Jwk::try_from(ext) {
+      Ok(k) => {
+        sweep_jwk(&k);
+        Ep::Accepted
+      }
+      Err(_) => Ep::RejectedLate,
+    },
+    Err(_) => late_if(is_json),
+  }
+}
 json_entry!(ep_jwk_set, JwkSet, |s: &JwkSet| {
   use_all!(s.len(), s.is_empty(), s.to_json(), format!("{s:?}"));
   for k in s.iter() {
@@ -599,6 +624,13 @@ fn json_entry_points() -> Vec<EntryPoint> {
   };
   vec![
     e("Jwk::from_json", ep_jwk, || sv(JWK_SEEDS)),
+    e("Jwk::try_from(jsonprooftoken Jwk)", ep_jwk_from_jpt_jwk, || {
+      sv(&[
+        r#"{"kty":"EC","crv":"BLS12381G2","x":"AQ","y":"Ag","alg":"BBS-SHA256","kid":"k","use":"proof","key_ops":["proofGeneration"]}"#,
+        r#"{"kty":"EC","crv":"P-256","x":"acbIQiuMs3i8_uszEjJ2tpTtRM4EU3yz91PH6CdH2V0","y":"_KcyLj9vWMptnmKtm46GqDz8wf74I5LKgrl2GzH3nSE","d":"AQ","x5u":"https://example.com/"}"#,
+        r#"{"kty":"OKP","crv":"Ed25519","x":"11qYAYKxCrfVS_7TyWQHOg7hcvPapiMlrwIaaPcHURo"}"#,
+      ])
+    }),
     e("JwkSet::from_json", ep_jwk_set, || {
       vec![format!(r#"{{"keys":[{},{}]}}"#, JWK_SEEDS[1], JWK_SEEDS[2]).into_bytes(), br#"{"keys":[]}"#.to_vec()]
     }),
